@@ -451,3 +451,134 @@ def phase_tracemeta(ctx, phase):
     if len(ctx.samples) < 3 and traces:
         ctx.samples.append(dict(trace_of=traces[0][0]["tid"], events=[dict(verb=e["verb"], args={k: v for k, v in e["args"].items() if v}, names=e["names"]) for e in traces[0][:4]]))
     return d
+
+
+# ------------------------------------------------------------------------------------------
+# C08 design level: FlatCorrect on SqlFlat.tla; every counterexample is replayed on the real code
+
+def _cross_replay(seed, srcname, moves):
+    """runs the moves on Polars and SQLite; returns None if they agree (or SQL refuses with SubqueryError), else a description"""
+    from . import compare as CMP
+    from .replay import Replayer, exc_class
+
+    rp = Replayer(seed)
+    R = rp.R
+    si = rp.name_to_src[srcname]
+    res = {}
+    for bk in ("polars", "sqlite"):
+        t = rp.B.table(bk, si)
+        colmap = {S_col_id(si, ci): t[n] for ci, (n, _) in enumerate(rp.B.srcs[si]["cols"])}
+        nid = 100
+        try:
+            for m in moves:
+                t2 = R.apply_move(dict(m, i=1), [t], colmap)
+                if m["v"] in ("mutate", "summarize"):
+                    for kv in m["kv"]:
+                        colmap[nid] = t2[kv["n"]]
+                        nid += 1
+                t = t2
+            res[bk] = t >> R.export(R.pdt.Polars())
+        except Exception as e:  # noqa: BLE001
+            res[bk] = exc_class(e)
+    if isinstance(res["sqlite"], str):
+        return None if res["sqlite"] in ("SubqueryError", "NotSupportedError") else f"SQLite raised {res['sqlite']}"
+    if isinstance(res["polars"], str):
+        return f"Polars raised {res['polars']}"
+    dp, ds = res["polars"], res["sqlite"]
+    if list(dp.columns) != list(ds.columns):
+        return f"columns differ: {dp.columns} vs {ds.columns}"
+    r = CMP.compare_rows(CMP.frame_rows(dp), CMP.frame_rows(ds), None, None)
+    return None if r is None else f"Polars {CMP.frame_rows(dp)[:6]} vs SQLite {CMP.frame_rows(ds)[:6]}"
+
+
+def S_col_id(si, ci):
+    from . import sources as S
+
+    return S.col_id(si, ci)
+
+
+def _decisions(args):
+    """worker: for each path, does the code raise SubqueryError exactly where the transcribed catalogue Rq says so?"""
+    seed, paths = args
+    from .replay import Replayer, exc_class
+
+    rp = Replayer(seed, backends=("sqlite",))
+    R = rp.R
+    agree = 0
+    drift = []
+    for pth in paths:
+        si = rp.name_to_src[pth["srcname"]]
+        t = rp.B.table("sqlite", si)
+        colmap = {S_col_id(si, ci): t[n] for ci, (n, _) in enumerate(rp.B.srcs[si]["cols"])}
+        nid = 100
+        ok = True
+        for k, (m, need) in enumerate(zip(pth["moves"], pth["subquery"])):
+            raised = False
+            try:
+                t2 = R.apply_move(dict(m, i=1), [t], colmap)
+            except Exception as e:  # noqa: BLE001
+                if exc_class(e) != "SubqueryError":
+                    ok = None
+                    break
+                raised = True
+                try:
+                    t2 = R.apply_move(dict(m, i=1), [t >> R.alias(keep_col_refs=True)], colmap)
+                except Exception:  # noqa: BLE001
+                    ok = None
+                    break
+            if raised != (need != ""):
+                drift.append(dict(src=pth["srcname"], step=k, moves=pth["moves"][: k + 1], specification=need or "fits", code="SubqueryError" if raised else "accepted"))
+                ok = False
+                break
+            if m["v"] in ("mutate", "summarize"):
+                for kv in m["kv"]:
+                    colmap[nid] = t2[kv["n"]]
+                    nid += 1
+            t = t2
+        if ok:
+            agree += 1
+    return agree, drift
+
+
+def phase_flat(ctx, phase):
+    d = tlc.prepare(f"{ctx.prop}-flat-{os.getpid()}", ctx.seed)
+    depth = phase.get("depth", 5)
+    emit = bool(phase.get("paths"))
+    tlc.write_model(d, "MC_SqlFlat", dict(MaxDepth=depth, SrcSel=phase.get("srcs", [1, 6]), EmitPaths=emit), {}, view="View")
+    found = []
+    paths = []
+    res = tlc.run(d, timeout=phase.get("timeout", 900), on_json=lambda o: (paths if o.get("path") else found).append(o))
+    if paths:
+        n = 16
+        futs = [ctx.get_pool().submit(_decisions, (ctx.seed, paths[w::n])) for w in range(n)]
+        agree, drift = 0, []
+        for fu in futs:
+            a, dr = fu.result()
+            agree += a
+            drift += dr
+        ctx.extra["catalogue_conformance"] = dict(paths=len(paths), decisions_agree=agree, drift=len(drift), drift_examples=drift[:5],
+                                                  note="Rq (SqlFlat.tla) vs Cache.requires_subquery, step by step on SQLite; a disagreement is "
+                                                       "'drift' (the design-level result no longer speaks for the code), not a violation by itself")
+        ctx.behaviours += len(paths)
+        ctx.replay_stats["steps_new"] = ctx.replay_stats.get("steps_new", 0) + sum(len(p["moves"]) for p in paths)
+    if res["timed_out"]:
+        ctx.exhaustive = False
+        ctx.notes.append("SqlFlat exploration stopped at its time budget")
+    ctx.tlc_states += res["states"]
+    ctx.tlc_distinct += res["distinct"]
+    ctx.tlc_runs.append(dict(profile=f"sqlflat(depth {depth})", states=res["states"], distinct=res["distinct"],
+                             counterexamples=len(found), wall=round(res["wall"], 1), mode="bfs, design level (no code runs)"))
+    confirmed = 0
+    for cex in found[:200]:
+        why = _cross_replay(ctx.seed, cex["srcname"], cex["moves"])
+        if why is not None:
+            confirmed += 1
+            ctx.failures.append(dict(clause="flat-correct", backend="sqlite", step=len(cex["moves"]) - 1, tainted=False, src=[cex["srcname"]], srcidx=0,
+                                     detail="TLC: the catalogue accepts this verb order but the flattened SELECT differs from the sequential meaning; "
+                                            "confirmed on the real code: " + why,
+                                     moves=cex["moves"], heap_obs=[], beh=cex))
+    ctx.extra["sqlflat"] = dict(depth=depth, counterexamples_predicted=len(found), confirmed_on_code=confirmed,
+                                drift=len(found) - confirmed,
+                                note="a predicted counterexample that the real code handles correctly means the transcription (SqlFlat.tla) "
+                                     "no longer matches the code: recorded as drift, not as a violation")
+    return d
